@@ -92,6 +92,13 @@ pub fn update_position_reply(
         }
         // DECREASE_POSITION_REPLY
         _ => {
+            // the order was worth less than the position, but the vAMM's rounding can still
+            // charge a dust position more base than it holds: its size would change sign
+            // while its direction stays
+            if output > position.size.value {
+                return Err(StdError::generic_err("reduction exceeds the position"));
+            }
+
             swap_margin = Uint128::zero();
 
             // realized_pnl = unrealized_pnl * close_ratio
